@@ -101,6 +101,13 @@ pub fn all_ops(forest: &[A], menu: OpMenu) -> Vec<Op> {
         ops.push(SetPiData(a, Some("e".into())));
         ops.push(TextContentMut(a, "s".into()));
         ops.push(SetAttrValue(a, "s".into()));
+        ops.push(AppendPi(a));
+        ops.push(AppendNamespace(a, 1, 1));
+        ops.push(AppendNamespace(a, 0, 0));
+        ops.push(NewDocumentWithElement(a));
+        ops.push(ElementMutSetName(a));
+        ops.push(NsNodeSetNamespace(a, 1));
+        ops.push(SetPiTarget(a));
         if menu.helpers {
             ops.push(RemoveWs(a));
             ops.push(CreateMissingPrefixes(a));
